@@ -248,6 +248,41 @@ func restart(dir string, spec blobSpec, assert bool) (string, string) {
 			return "continued download completes with wrong bytes", fmt.Sprintf("cache has %q (present=%v) want %q", b, ok, spec.content)
 		}
 	}
+	// "The download can be started again": the blob later leaves the cache
+	// (eviction / DeleteTorrent) and is downloaded once more on the same
+	// directories -- whatever the crash left behind must not poison that either.
+	if err := s.archive.DeleteTorrent(d); err != nil {
+		if assert {
+			return "cached blob cannot be deleted after restart", err.Error()
+		}
+		return "", ""
+	}
+	t2, err := s.archive.CreateTorrent("ns", d)
+	if err != nil {
+		if assert {
+			return "download cannot be started again after the blob left the cache: " + errClass(err), err.Error()
+		}
+		return "", ""
+	}
+	if assert && spec.n() > 0 && t2.Complete() {
+		if b, ok := cacheBytes(s); !ok || !bytes.Equal(b, spec.content) {
+			return "re-download after eviction reports complete with wrong cached bytes", fmt.Sprintf("cache has %q (present=%v) want %q", b, ok, spec.content)
+		}
+	}
+	for _, i := range t2.MissingPieces() {
+		if i >= spec.n() {
+			continue
+		}
+		if err := t2.WritePiece(piecereader.NewBuffer(spec.piece(i)), i); err != nil && err != storage.ErrPieceComplete && assert {
+			return "re-download after eviction fails: " + errClass(err), fmt.Sprintf("WritePiece(%d): %v", i, err)
+		}
+	}
+	if assert {
+		b, ok := cacheBytes(s)
+		if !t2.Complete() || !ok || !bytes.Equal(b, spec.content) {
+			return "re-download after eviction does not complete with the exact bytes", fmt.Sprintf("complete=%v cache has %q (present=%v) want %q", t2.Complete(), b, ok, spec.content)
+		}
+	}
 	return "", ""
 }
 
